@@ -75,6 +75,7 @@ harnesses! {
     plain: [
         (h_probe::zz_smoke, 2),
         (h_members::c01_commute, 7),
+        (h_members::c01_commute_new, 7),
         (h_members::c01_idempotent, 7),
         (h_members::c01_monotone, 7),
         (h_members::c01_frame, 7),
@@ -144,6 +145,8 @@ harnesses! {
         (h_misc::c17_bad_member_state255, 7),
         (h_misc::c17_bad_member_count, 7),
         (h_misc::c17_trailing_byte, 7),
+        (h_misc::c17_trailing_byte_ping, 7),
+        (h_misc::c17_trailing_byte_turn_undead, 7),
         (h_misc::c06_fuzz_gossip_7, 7),
         (h_misc::c06_fuzz_gossip_9, 7),
         (h_misc::c06_fuzz_ping_7, 7),
